@@ -29,7 +29,7 @@ def run(ctx):
     if not pinned.invariant_violated:
         raise core.Machinery("the pinned chunking loop is not refuted")
     # the splitting of unparsed chunks and the choice among candidate splits (SearchSplit.tla): its laws
-    ss = ctx.tlc("P_SearchSplit", "SPECIFICATION Spec\nCONSTANTS\n  MaxN = %d\n  MaxPieces = %d\nINVARIANT Lossless\nINVARIANT CandidateCount\nINVARIANT GroupSizes\n"
+    ss = ctx.tlc("P_SearchSplit", "SPECIFICATION Spec\nCONSTANTS\n  MaxN = %d\n  MaxPieces = %d\nINVARIANT Lossless\nINVARIANT PaddedGrouperRefuted\nINVARIANT CandidateCount\nINVARIANT GroupSizes\n"
                  "INVARIANT RelativeBaseLaw\nINVARIANT BestExists\nINVARIANT BestUnbeaten\nINVARIANT FullyParsedWins\nINVARIANT EmptyCandidateWins\nCHECK_DEADLOCK FALSE\n" % ((40, 2) if ctx.quick() else (200, 3)),
                  timeout=3000, name="P_SearchSplit")
     ss.require_clean()
